@@ -516,6 +516,8 @@ func runC20(c *Check, w *World) {
 		c.Decide(regs[n] != nil, "R20.1", "wasm.registerFunctions", "registered:"+n, "documented global "+n+" is registered", "the documented global function "+n+" is not registered", "")
 	}
 
+	ruleJSReturnTypes(c, w, tb, "R20.7", regs)
+	c.Floor("R20.7", 5)
 	der, roles := ruleWasmDerivation(c, w, tb, iv, ef, sent, "R20.2")
 	if der == nil {
 		return
@@ -531,8 +533,44 @@ func runC20(c *Check, w *World) {
 		}
 		pfx := "R20.3." + n
 		// the native window rules: HOTP skips steps below counter zero, TOTP wraps modulo 2^64 like the native loop
-		analyseWindow(c, w, tb, iv, pfx, f, isStep, "", n == "validateHOTP")
+		wr := analyseWindow(c, w, tb, iv, pfx, f, isStep, "", n == "validateHOTP")
+		// the operation registered under this name is the one the name says: the window is centred on the
+		// caller's counter (HOTP) / on the time step of the caller's instant (TOTP)
+		if wr != nil && wr.centre != nil {
+			kind := bindingCounterKind(wr.centre)
+			want := "argument #2" // (secret, code, counter, …)
+			if n == "validateTOTP" {
+				want = "time-step"
+			}
+			c.Decide(kind == want, "R20.8", "wasm."+n, "registered-operation", "the function registered as "+n+" validates around the "+want, "the function registered as "+n+" validates around "+kind+" ("+clip(normT(wr.centre), 140)+"), not around the "+want+": the name is bound to a different operation", w.Pos(f.Pos()))
+		}
 	}
+	for _, n := range []string{"generateHOTP", "generateTOTP"} {
+		f := regs[n]
+		if f == nil {
+			continue
+		}
+		want := "argument #1" // (secret, counter, …)
+		if n == "generateTOTP" {
+			want = "time-step"
+		}
+		hits := tb.Reach(f, func(ci ssa.CallInstruction) bool { return ci.Common().StaticCallee() == der }, 4)
+		if len(hits) == 0 {
+			c.Bad("R20.8", "wasm."+n, "registered-operation", "the function registered as "+n+" does not reach the binding's derivation", w.Pos(f.Pos()))
+			continue
+		}
+		for _, h := range hits {
+			if roles.Counter >= len(h.Args) {
+				continue
+			}
+			kind := bindingCounterKind(h.Args[roles.Counter])
+			c.Decide(kind == want, "R20.8", "wasm."+n, "registered-operation", "the function registered as "+n+" derives the code of the "+want, "the function registered as "+n+" derives the code of "+kind+" ("+clip(normT(h.Args[roles.Counter]), 140)+"), not of the "+want+": the name is bound to a different operation", w.InstrPos(h.Call))
+		}
+		if vw != nil && len(tb.Reach(f, func(ci ssa.CallInstruction) bool { return ci.Common().StaticCallee() == vw }, 4)) > 0 {
+			c.Bad("R20.8", "wasm."+n, "registered-operation:validates", "the function registered as "+n+" runs a validation", w.Pos(f.Pos()))
+		}
+	}
+	c.Floor("R20.8", 4)
 	// wasm validator core: same shape as native validate()
 	if vw != nil {
 		vfn := FuncName(vw)
@@ -775,4 +813,126 @@ func wasmGlobalWritten(w *World, sym string) bool {
 		})
 	}
 	return written
+}
+
+// ruleJSReturnTypes (shared with C10 in the js/wasm configuration): whatever a registered function returns is
+// handed to js.ValueOf by the runtime, which panics ("ValueOf: invalid value") on anything but js.Value, js.Func,
+// nil, booleans, integers, floats, strings, []any and map[string]any — the Go program then exits and every later
+// call of any export throws. Each return statement must therefore box a value of one of these types (a Go error
+// returned as it is, for instance, is not one).
+func ruleJSReturnTypes(c *Check, w *World, tb *TB, rule string, regs map[string]*ssa.Function) {
+	var names []string
+	for n := range regs {
+		names = append(names, n)
+	}
+	sort.Strings(names)
+	okType := func(t types.Type) bool {
+		// js.ValueOf switches on the concrete type: a named type (type Digits int) is not one of its cases
+		switch u := types.Unalias(t).(type) {
+		case *types.Basic:
+			return u.Info()&(types.IsBoolean|types.IsInteger|types.IsFloat|types.IsString) != 0 || u.Kind() == types.UntypedNil || u.Kind() == types.UnsafePointer
+		case *types.Slice:
+			if it, ok := u.Elem().Underlying().(*types.Interface); ok && it.Empty() {
+				return true
+			}
+		case *types.Map:
+			if it, ok := u.Elem().Underlying().(*types.Interface); ok && it.Empty() {
+				if k, ok := u.Key().Underlying().(*types.Basic); ok && k.Kind() == types.String {
+					return true
+				}
+			}
+		}
+		s := t.String()
+		return s == "syscall/js.Value" || s == "syscall/js.Func"
+	}
+	for _, n := range names {
+		f := regs[n]
+		fn := FuncName(f)
+		bad := ""
+		var badAt ssa.Instruction
+		nret := 0
+		var judge func(v ssa.Value, depth int) string
+		judge = func(v ssa.Value, depth int) string {
+			switch x := v.(type) {
+			case *ssa.MakeInterface:
+				if okType(x.X.Type()) {
+					return ""
+				}
+				return "a value of type " + x.X.Type().String()
+			case *ssa.Const:
+				if x.Value == nil {
+					return "" // nil → null
+				}
+			case *ssa.Phi:
+				if depth < 4 {
+					for _, e := range x.Edges {
+						if why := judge(e, depth+1); why != "" {
+							return why
+						}
+					}
+					return ""
+				}
+			case *ssa.ChangeInterface:
+				return "a value of interface type " + x.X.Type().String() + " (dynamic type not one js.ValueOf accepts)"
+			case *ssa.Call:
+				// a helper of the binding returning `any`: judged by its own returns
+				if g := x.Call.StaticCallee(); g != nil && g.Blocks != nil && fnPkgPath(g) == WasmPath && depth < 3 {
+					for _, r := range Returns(g) {
+						if len(r.Results) == 1 {
+							if why := judge(r.Results[0], depth+1); why != "" {
+								return why
+							}
+						}
+					}
+					return ""
+				}
+			}
+			return "a value whose dynamic type is not known (" + v.Type().String() + ")"
+		}
+		for _, r := range Returns(f) {
+			if len(r.Results) != 1 {
+				continue
+			}
+			nret++
+			if why := judge(r.Results[0], 0); why != "" && bad == "" {
+				bad, badAt = why, r
+			}
+		}
+		pos := w.Pos(f.Pos())
+		if badAt != nil {
+			pos = w.InstrPos(badAt)
+		}
+		c.Decide(bad == "" && nret > 0, rule, fn, "js-return-types", fmt.Sprintf("all %d return statements hand back a value js.ValueOf converts", nret), "the function returns "+bad+": js.ValueOf panics, the Go program exits and every later call of any export throws", pos)
+	}
+}
+
+// bindingCounterKind classifies the counter a binding function works on: "argument #k" — the k-th JavaScript
+// argument, parsed as an integer and unchanged but for integer conversions (the label under which it is parsed only
+// names it in error messages); "time-step" — the result of the library's time-step function; anything else is
+// described.
+func bindingCounterKind(t *Term) string {
+	for t.Op == "conv" && len(t.Args) == 1 {
+		t = t.Args[0]
+	}
+	kinds := map[string]bool{}
+	for _, a := range t.Alts() {
+		for a.Op == "conv" && len(a.Args) == 1 {
+			a = a.Args[0]
+		}
+		switch {
+		case a.Op == "extract" && a.Sym == "0" && len(a.Args) == 1 && a.Args[0].Op == "call" && len(a.Args[0].Args) >= 1 &&
+			a.Args[0].Args[0].Op == "index" && len(a.Args[0].Args[0].Args) == 2 && a.Args[0].Args[0].Args[0].Op == "param" && a.Args[0].Args[0].Args[1].IsConst():
+			kinds["argument #"+a.Args[0].Args[0].Args[1].Sym] = true
+		case a.Op == "calldyn" && len(a.Args) == 3 && a.Args[0].String() == "gval(otp.TimeCounterFunc)":
+			kinds["time-step"] = true
+		default:
+			kinds["another value"] = true
+		}
+	}
+	if len(kinds) == 1 {
+		for k := range kinds {
+			return k
+		}
+	}
+	return "several different values"
 }
